@@ -198,7 +198,11 @@ func runC11(r *rt.Runner) {
 		sh := sh
 		r.Case("runaway/"+sh.name, func(c *rt.C) {
 			c.SetDetail(func() string { return "program: " + sh.text })
-			intp, err, tr := runTraced(sh.text, 5_000_000, false)
+			budget := 5_000_000
+			if strings.HasPrefix(sh.name, "swallowed-") {
+				budget = 300_000
+			}
+			intp, err, tr := runTraced(sh.text, budget, false)
 			got := errName(err)
 			c.Count("runaway shapes")
 			c.Runner().Max("peak operand stack (hook)", int64(tr.peakSt))
@@ -207,11 +211,11 @@ func runC11(r *rt.Runner) {
 			c.Runner().Count("hook steps observed", int64(tr.last))
 			ok := false
 			for _, w := range sh.want {
-				if got == w {
+				if got == w || (w == "(budget)" && err == postscript.ErrExecutionLimitExceeded) {
 					ok = true
 				}
 			}
-			if !ok {
+			if !ok && sh.want != nil {
 				c.Violation("runaway:"+sh.name+"|error", fmt.Sprintf("expected the run to be cut off by %v; Execute returned %v after %d operations (stack %d, dictstack %d)\nprogram: %s",
 					sh.want, err, intp.NumOps, len(intp.Stack), len(intp.DictStack), sh.text), "")
 			}
@@ -345,6 +349,18 @@ var c11Shapes = []struct {
 	{"begin-loop-inside-eexec", "currentfile eexec\n" + hexSection("{ 1 dict begin } loop "), []string{"dictstackoverflow"}},
 	{"push-loop-inside-eexec", "currentfile eexec\n" + hexSection("{ 1 } loop "), []string{"stackoverflow"}},
 	{"recursion-inside-eexec", "currentfile eexec\n" + hexSection("/p { p 1 } def p "), []string{"execstackoverflow"}},
+	// error handlers that swallow the error while the failing operation sits in a
+	// loop. How such a run ends is not prescribed (this interpreter resumes after
+	// the innermost enclosing operator, so the loop may end or run until the
+	// budget ends it); only the growth is asserted: nothing may pass the caps
+	{"swallowed-stackoverflow", "errordict /stackoverflow { } put { 1 } loop", nil},
+	{"swallowed-dictstackoverflow", "errordict /dictstackoverflow { } put { 1 dict begin } loop", nil},
+	{"swallowed-execstackoverflow", "errordict /execstackoverflow { } put /p { p 1 } def { p } loop", nil},
+	{"swallowed-limitcheck", "errordict /limitcheck { } put { 16777216 array } loop", nil},
+	{"swallowed-typecheck-eexec", "errordict /typecheck { } put { 1 eexec } loop", nil},
+	{"swallowed-eexec-at-end-of-input", "errordict /syntaxerror { } put errordict /invalidaccess { } put errordict /ioerror { } put { currentfile eexec } loop", nil},
+	{"swallowed-nested-eexec", "currentfile eexec\n" + hexSection("errordict /invalidaccess { } put { currentfile eexec } loop "), nil},
+	{"swallowed-nested-eexec-by-name", "currentfile eexec\n" + hexSection("errordict /invalidaccess { pop } put /e { currentfile eexec } def { e e } loop "), nil},
 }
 
 // hexSection encrypts plain (with four zero bytes in front) for eexec, in
